@@ -21,6 +21,14 @@ rows: Ledger.tla part 3, HistoryFree is model-checked over up to 3 statements pe
 qualifiers on the registered table must be rejected).  Relational laws on the history statements themselves (their result
 is a function of ledger and statement: the same when executed again at the end, and on a fresh connection).
 
+Metadata keys range over the whole Beancount key syntax [a-z][a-zA-Z0-9\\-_]+ (only the first character is lower case):
+the alphabets of the specification and the random ledgers carry camel-case keys, keys with dash / underscore / digit and
+pairs of keys that differ in the case of a letter only (in one dictionary, across posting and transaction, on open and
+commodity directives); every lookup function is evaluated for the present keys AND for case variants of them (different
+keys: NULL unless the ledger has that twin).  Ledger.tla states the lookups as exact, character-by-character key
+matches, model-checks the code's dict.get mechanism against them (LookupsEqDecl) and a mechanism that lower-cases the
+key must be rejected.
+
 Columns without counterpart in the model (`id`, `balance`, unknown future columns) get generic checks only
 (declared type, id stability / consistency) and are counted as uncovered.
 """
@@ -546,11 +554,41 @@ def compare(report, spec_rows, obs):
     return bad
 
 
+def mixed_case_hits(posting_rows):
+    """lookups (per function) of a key that carries an upper-case letter and that have a value (non-vacuity of the key
+    space: such keys are looked up where they are present)"""
+    hits = {}
+    for r in posting_rows or []:
+        for item in r.get('lk', []):
+            if item['k'] != item['k'].lower():
+                for short, fn in LK_POSTINGS:
+                    if item.get(short):
+                        hits[fn] = hits.get(fn, 0) + 1
+    return hits
+
+
 def ledger_key(abstract_entries, history=()):
     return hashlib.blake2b(json.dumps([abstract_entries, list(history)], sort_keys=True).encode(), digest_size=8).hexdigest()
 
 
+def case_variants(keys, taken, limit=4):
+    """keys that differ from a key of the ledger in the case of letters only: metadata keys are case-sensitive (only
+    the first character of a Beancount key has to be lower case), so these are different keys -- present in the ledger
+    only if it has such a twin, otherwise missing; the specification decides"""
+    out = []
+    for k in keys:
+        for v in (k.lower(), k.upper(), k[:1] + k[1:].swapcase()):
+            if v != k and v not in taken and v not in out:
+                out.append(v)
+                break
+        if len(out) >= limit:
+            break
+    return out
+
+
 def user_keys(abstract_entries, limit=8):
+    """the keys looked up: the located ones, the first `limit` keys of the ledger (those with an upper-case letter
+    first: every key shape is looked up), case variants of them, a key no dictionary has"""
     keys = []
     for d in abstract_entries:
         metas = [d['meta']] + [p['meta'][0] for p in d.get('postings', []) if p['meta']]
@@ -558,8 +596,11 @@ def user_keys(abstract_entries, limit=8):
             for k, _ in m:
                 if k not in keys and "'" not in k:
                     keys.append(k)
-    front = [k for k in keys if k not in ('filename', 'lineno')][:limit]
-    return ['filename', 'lineno'] + front + ['no_such_key']
+    keys = [k for k in keys if k not in ('filename', 'lineno')]
+    mixed = [k for k in keys if k != k.lower()][:limit // 2]
+    front = mixed + [k for k in keys if k not in mixed][:limit - len(mixed)]
+    cands = mixed[:2] + [k for k in front if k not in mixed][:2] + mixed[2:]
+    return ['filename', 'lineno'] + front + case_variants(cands, front) + ['no_such_key']
 
 
 # ---- C2S recording ------------------------------------------------------------------------------------------------
@@ -588,6 +629,7 @@ class Recorder:
         self.with_history = 0
         self.statements = 0
         self.forms = {}
+        self.mixed = {}
 
     def add(self, entries, options, kind, abstract=None, text_lookups=False, history=None):
         """observe one ledger on the real code -- after `history` (a list of abstract statements, or a function of the
@@ -627,6 +669,8 @@ class Recorder:
         for k, v in obs.uncovered.items():
             self.uncovered[k] = self.uncovered.get(k, 0) + v
         self.cells += obs.cells
+        for k, v in mixed_case_hits(obs.rows['postings']).items():
+            self.mixed[k] = self.mixed.get(k, 0) + v
         ctx.skipped += obs.ood_cells
         ctx.case(ledger_key(abstract, history), any(d['k'] == 'txn' for d in abstract), n=obs.cells)
         if self.n <= 1:
@@ -704,7 +748,7 @@ class Recorder:
         self.ctx.leg('C2S', lines=self.lines, rejected=self.rejected, skipped_not_wellformed=self.not_wellformed,
                      kinds=self.kinds, cells=self.cells, uncovered_cells=self.uncovered, what=what,
                      ledgers_read_after_a_history=self.with_history, history_statements_executed=self.statements,
-                     history_forms=self.forms)
+                     history_forms=self.forms, lookups_of_keys_with_upper_case_letters_having_a_value=self.mixed)
         return rejected
 
 
@@ -736,6 +780,7 @@ def s2c_eval(arg):
     for d in p['ledger']:
         kinds[d['k']] = kinds.get(d['k'], 0) + 1
     out = {'viol': viol, 'bad': bad, 'cells': obs.cells, 'uncovered': obs.uncovered, 'kinds': kinds,
+           'mixed': mixed_case_hits(p['rows']['postings']),
            'key': ledger_key(p['ledger'], hist), 'nontrivial': 'txn' in kinds, 'hist': hist, 'statements': obs.statements}
     if viol or p.get('want_ledger'):
         out.update(ledger=p['ledger'], keys=p['keys'], row1=p['rows']['postings'][:1])
@@ -751,7 +796,7 @@ class S2C:
         self.rec = rec
         self.reload_every = reload_every
         self.stats = {'n': 0, 'cells': 0, 'bad': 0, 'uncovered': {}, 'kinds': {}, 'unprintable': 0, 'with_history': 0,
-                      'statements': 0, 'forms': {}}
+                      'statements': 0, 'forms': {}, 'mixed': {}}
         self.seen = set()
         # parse the per-table statements (about 1 s each with TatSu) once, before the workers are forked
         Observation([], lg.default_options(), []).run()
@@ -795,6 +840,8 @@ class S2C:
                 stats['uncovered'][k] = stats['uncovered'].get(k, 0) + v
             for k, v in r['kinds'].items():
                 stats['kinds'][k] = stats['kinds'].get(k, 0) + v
+            for k, v in r['mixed'].items():
+                stats['mixed'][k] = stats['mixed'].get(k, 0) + v
             ctx.case(r['key'], r['nontrivial'], n=r['cells'])
             ctx.traces += 1
             if 'ledger' not in r:
@@ -831,6 +878,9 @@ def run(ctx):
         'without metadata dictionary may be NULL or the transaction\'s value; #accounts and #commodities are compared as '
         'sets of rows; other_accounts, tags, links, metadata dictionaries are compared as sets',
         'metadata keys starting with __ (loader internals) are outside the vocabulary and dropped on both sides',
+        'metadata keys are case-sensitive strings (Beancount: [a-z][a-zA-Z0-9-_]+, two keys that differ in the case of a '
+        'letter are different keys of one dictionary): a lookup with a case variant of a present key is a lookup of a '
+        'missing key (NULL) unless the dictionary has that variant too',
         'numbers are exact reduced rationals below 2^31; a weight whose product leaves that range is skipped (counted)',
         'what a statement with OPEN / CLOSE / CLEAR qualifiers itself returns is not stated by C11: history statements are '
         'only required to give the same result again later on the connection and alone on a fresh connection (law), the '
@@ -858,6 +908,8 @@ def run(ctx):
         tlc(ctx, 'MC_Ledger', 'MC_Ledger_skipfirst.cfg', leg='MC-nonvacuity', expect_violation='MechEqDecl', workers=2)
         tlc(ctx, 'MC_Ledger', 'MC_Ledger_rowid.cfg', leg='MC-nonvacuity', expect_violation='RowidInv', workers=2)
         tlc(ctx, 'MC_Ledger', 'MC_Ledger_inplace.cfg', leg='MC-nonvacuity', expect_violation='HistoryFree', workers=2)
+        # the key space distinguishes keys by the case of their letters: a lookup that lower-cases the key is rejected
+        tlc(ctx, 'MC_Ledger', 'MC_Ledger_foldcase.cfg', leg='MC-nonvacuity', expect_violation='LookupsEqDecl', workers=2)
     rec = Recorder(ctx, ctx.path('ledger_trace.ndjson'))
     # ---- S2C
     if not only or 'S2C' in only:
@@ -887,7 +939,14 @@ def run(ctx):
         ctx.leg('S2C', ledgers=stats['n'], cells=stats['cells'], mismatching_cells=stats['bad'],
                 directives_by_kind=stats['kinds'], uncovered_cells=stats['uncovered'],
                 unprintable_for_reload=stats['unprintable'], ledgers_read_after_a_history=stats['with_history'],
-                history_statements_executed=stats['statements'], history_forms=stats['forms'])
+                history_statements_executed=stats['statements'], history_forms=stats['forms'],
+                lookups_of_keys_with_upper_case_letters_having_a_value=stats['mixed'])
+        # (open_meta / commodity_meta need an open / commodity directive and a posting in ONE ledger: every pair in the
+        # thorough tier, as the simulated walks happen to go in the quick one -- the recorded leg has its own guard)
+        missing = [fn for fn in ('meta', 'entry_meta', 'any_meta') + (() if ctx.quick else ('open_meta', 'commodity_meta'))
+                   if not stats['mixed'].get(fn)]
+        if missing:
+            raise MachineryError('vacuity: no generated ledger has a key with an upper-case letter where %s finds it' % missing)
         if not stats['with_history'] or not stats['forms'].get('agg') or stats['with_history'] == stats['n']:
             raise MachineryError('vacuity: the generator emitted %d of %d ledgers with a history (forms %s)'
                                  % (stats['with_history'], stats['n'], stats['forms']))
@@ -921,6 +980,9 @@ def run(ctx):
                        'on the same connection')
             if rec.lines and not rec.with_history:
                 raise MachineryError('vacuity: no recorded ledger was read after a history')
+            if rec.lines and not ctx.violations and not (rec.mixed.get('open_meta') and rec.mixed.get('commodity_meta')):
+                raise MachineryError('vacuity: no recorded ledger has a key with an upper-case letter on an open and on a '
+                                     'commodity directive that a posting looks up (%s)' % rec.mixed)
     ctx.exhaustive = False
 
 
